@@ -243,6 +243,46 @@ pub fn run(out_path: &str, tier: &str) {
 			place_in(kind, ty, "a+b", &key, &format!("str-place-type/{}/{}", ty, kind), &mut out);
 		}
 	}
+	// 1d. the text views of the three str-backed types: as_str / as_ref / Display / == with str, String, &str, &String
+	{
+		let mut arng = Rng::new(seed ^ 0xacc);
+		let n = if tier == "quick" { 150 } else { 5000 };
+		for i in 0..n {
+			let ty = ["printable", "ia5", "teletex"][i % 3];
+			let text = if i < 6 { String::new() } else { random_text(ty, &mut arng, 12) };
+			// near misses: one character appended / dropped / changed, other case
+			let mut others: Vec<String> = vec![format!("{}x", text), text.to_uppercase() + "A", format!(" {}", text)];
+			if !text.is_empty() {
+				others.push(text[..text.len() - 1].to_string());
+				let mut c: Vec<u8> = text.clone().into_bytes();
+				c[0] = if c[0] == b'A' { b'B' } else { b'A' };
+				others.push(String::from_utf8_lossy(&c).to_string());
+			}
+			others.retain(|o| *o != text);
+			macro_rules! views {
+				($t:ty) => {{
+					match <$t>::try_from(text.as_str()) {
+						Ok(v) => {
+							let r: &str = v.as_ref();
+							let same = [v == *text.as_str(), v == text, v == text.as_str(), v == &text];
+							let other: Vec<bool> = others.iter().flat_map(|o| [v == *o.as_str(), v == *o, v == o.as_str(), v == o]).collect();
+							Some(json!({"asStr": hex(v.as_str().as_bytes()), "asRef": hex(r.as_bytes()), "display": hex(format!("{}", v).as_bytes()),
+								"eqSame": same, "eqOtherAny": other.iter().any(|b| *b), "nOthers": others.len()}))
+						},
+						Err(_) => None,
+					}
+				}};
+			}
+			let obs = match ty {
+				"printable" => views!(PrintableString),
+				"ia5" => views!(Ia5String),
+				_ => views!(TeletexString),
+			};
+			if let Some(obs) = obs {
+				out.event("StringViews", &format!("str-views/{}", i), json!({"type": ty, "hex": hex(text.as_bytes())}), "Ok", "", obs);
+			}
+		}
+	}
 	// 2. byte-level constructors: every 16-bit unit, every 32-bit value below 0x120000
 	let r = scan(0, 0xffff, &mut rng, nsamples, |v| {
 		Some(guarded_any(|| BmpString::from_utf16be(vec![(v >> 8) as u8, v as u8]).ok().map(|x| x.as_bytes().to_vec())))
